@@ -1,6 +1,6 @@
 ------------------------------ MODULE TraceText ------------------------------
 (* Verdict-style validation for C20. Lines:
-   [id, kind = "like" | "fn", s, p (pattern / second string), f, n, m, out = [k, v]]
+   [id, kind = "like" | "fn", s, p (pattern / second string), f, n, m, an (1 = that argument is NULL), out = [k, v]]
    out.k = "val" with v a code-point sequence (strings) or <<x>> (integers, booleans 0/1),
            "null", "err", or an inadmissible outcome name.                      *)
 EXTENDS Text, Json, IOUtils
@@ -10,6 +10,8 @@ OK(r) ==
   IF r.kind = "like" THEN
        IF ~LikeSpecified(r.p) THEN r.out.k \in {"val", "err"}
        ELSE r.out.k = "val" /\ r.out.v = <<IF Like(r.s, r.p) THEN 1 ELSE 0>>
+  (* a NULL in any argument position makes the result NULL, whichever arguments are constants or columns *)
+  ELSE IF \E i \in DOMAIN r.an : r.an[i] = 1 THEN r.out.k = "null"
   ELSE r.out.k = "val" /\ r.out.v = Fn(r.f, r.s, r.p, r.n, r.m)
 Exp(r) == IF r.kind = "like" THEN <<IF LikeSpecified(r.p) /\ Like(r.s, r.p) THEN 1 ELSE 0>> ELSE Fn(r.f, r.s, r.p, r.n, r.m)
 TInit == l = 1
